@@ -39,6 +39,7 @@ def gen_requests(rng, tier):
         rs += [['RLocusConfig', n, u, r] for n, u, r in [(0, 0, 0.0), (-1, 0, 0.0), (3, 0, 0.0), (5, 1, 1.0), (1, -1, 0.0), (2, 0, neg()),
                                                          (1, 0, 0.0), (2, 1, pos()), (2, 0, 0.0)]]
         rs += [['RRecombinationKeyword', v] for v in (neg(), neg(), 0.0, pos())]
+        rs += [['RRecombinationKeyword', v, how] for how in ('reused_keyword', 'reused_attribute') for v in (neg(), pos())]
         rs += [['RSfsTwoLoci', l] for l in (1, 2)]
         rs += [['RMultipleMergerLoci', mm, l] for mm in (True, False) for l in (1, 2)]
         rs += [['RConstructTimes', a, b] for a, b in [(neg(), None), (0.0, neg()), (2.0, 1.0), (1.0, 1.0), (0.0, None), (0.5, 2.0), (1.0, 0.5)]]
